@@ -139,7 +139,7 @@ pub fn check_edit(o: &XTree, n: &XTree, e: &Edit, new_text: &[u8]) -> Vec<(Strin
     errs
 }
 
-fn check_standalone(tree_before: &Tree, o: &XTree, e: &Edit, ie: &InputEdit, new_text: &[u8], fail: &mut dyn FnMut(&str, String)) {
+fn check_standalone(tree_before: &Tree, o: &XTree, n: &XTree, e: &Edit, ie: &InputEdit, new_text: &[u8], fail: &mut dyn FnMut(&str, String)) {
     // Node::edit moves the node's start by the same mapping
     let mut nodes = vec![];
     fn collect<'t>(n: tree_sitter::Node<'t>, out: &mut Vec<tree_sitter::Node<'t>>) { out.push(n); for k in 0..n.child_count() { if let Some(c) = n.child(k as u32) { collect(c, out); } } }
@@ -150,6 +150,12 @@ fn check_standalone(tree_before: &Tree, o: &XTree, e: &Edit, ie: &InputEdit, new
             m.edit(ie);
             let trusted = !o.nodes[i].has_changes;
             if let Some(msg) = check_mapped(&format!("Node::edit on #{}", i), e, new_text, o.nodes[i].start, m.start_byte(), m.start_position(), trusted) { fail("node-edit", msg); }
+            // "the same mapping": a node that began strictly inside the replaced text may legitimately land anywhere in the
+            // inserted text as far as the text model goes, but Node::edit on the held node and Tree::edit on the tree have to
+            // agree on where
+            if o.nodes[i].start > e.start && o.nodes[i].start < e.start + e.old_len && n.nodes.len() == o.nodes.len() && (m.start_byte() != n.nodes[i].start || m.start_position() != n.nodes[i].sp) {
+                fail("node-edit-disagrees-with-tree-edit", format!("node #{} began at {} inside the replaced text {}..{}: Node::edit moves it to {} {:?}, Tree::edit to {} {:?}", i, o.nodes[i].start, e.start, e.start + e.old_len, m.start_byte(), m.start_position(), n.nodes[i].start, n.nodes[i].sp));
+            }
         }
     }
     // points and ranges at every position of the old text
@@ -184,7 +190,7 @@ pub fn explore(ctx: &Ctx, info: &LangInfo, doc: &[u8], depth: usize, res: &mut S
             let mut errs = check_edit(&ox, &nx, &e, &new_text);
             {
                 let mut fail = |fp: &str, m: String| { if errs.iter().filter(|(f, _)| f == fp).count() < 2 { errs.push((fp.to_string(), m)); } };
-                check_standalone(&tree, &ox, &e, &ie, &new_text, &mut fail);
+                check_standalone(&tree, &ox, &nx, &e, &ie, &new_text, &mut fail);
                 // stand-alone point and range functions at every old position
                 for p in 0..=text.len() {
                     let mut pt = text::point_at(&text, p);
